@@ -30,6 +30,8 @@ structure FOps (F : Type) where
   roundEven : F → Option Int
   /-- math.floor; none = inf / nan -/
   floor : F → Option Int
+  /-- math.isfinite -/
+  isFinite : F → Bool
 
 /-- a Python number as the machine manipulates it before boxing -/
 inductive Raw (F : Type) where
@@ -83,11 +85,16 @@ def mk {F} (ops : FOps F) (t : Ty) (r : Raw F) : Res (Cell F) :=
     | some y => .ok (.flt .s y)
     | none => .trap "INVALID_CELL_VALUE"
   | .s, .flt x =>
+    -- as repaired: an infinity or a NaN is the result of an overflow and no cell holds it
+    if !ops.isFinite x then .trap "INVALID_CELL_VALUE" else
     match ops.toSingle x with
     | some y => .ok (.flt .s y)
     | none => .trap "INVALID_CELL_VALUE"
   | .d, .int n => .ok (.flt .d (ops.ofInt n))
-  | .d, .flt x => .ok (.flt .d x)
+  | .d, .flt x => if ops.isFinite x then .ok (.flt .d x) else .trap "INVALID_CELL_VALUE"
+
+/-- before the repair: a DOUBLE cell took any float (1D308 * 10 printed `inf`) -/
+def mkDoubleOld {F} (x : F) : Res (Cell F) := .ok (.flt .d x)
 
 /-! ### integer division -/
 
